@@ -21,9 +21,9 @@ pub enum Event {
     /// `alpha_beta_minimax` entered (before the cache lookup).
     Node { key: u64, alpha: i16, beta: i16, depth: u8, maximizing: bool },
     /// About to take the shared result cache's read lock.
-    BeforeCacheRead { key: u64, alpha: i16, beta: i16 },
+    BeforeCacheRead { key: u64, depth: u8, maximizing: bool, alpha: i16, beta: i16 },
     /// About to take the shared result cache's write lock and insert.
-    BeforeCacheStore { key: u64, alpha: i16, beta: i16, score: i16 },
+    BeforeCacheStore { key: u64, depth: u8, maximizing: bool, alpha: i16, beta: i16, score: i16 },
     /// About to bump the shared searched-position counter.
     BeforeCounterBump,
 }
